@@ -12,6 +12,40 @@ offsets, windows and the `except` tuple it uses are `Gen.Iso.*`, regenerated fro
 namespace C08
 open Iso
 
+/-- **The generated guards accept the canonical renderings.**  Every expression lifted from
+`parse_iso` on this run (`Gen.Iso`: the two length windows, the dash / separator / seconds tests
+with their subscripts and joining operators, the three `val_len` tests, the slice offsets, the `Z`
+and `+` characters) does what the round-trip theorems below need: lengths 10..33 pass the window,
+10..28 pass the window after the `+` split, `-`, `T`/space and `:` at offsets 4/7, 10, 13, 16 are
+not rejected, length 10 selects the date form, ≥ 19 the seconds form, 16 the minute form. -/
+theorem guards_accept_canonical_renderings : Iso.Accepts where
+  idx := by decide
+  slices := by decide
+  chars := by decide
+  window := by intro n h1 h2; unfold Gen.Iso.lenWindow; omega
+  plus := by intro n h1 h2; unfold Gen.Iso.plusReject; omega
+  dash := by decide
+  sep := by intro c hc; rcases hc with rfl | rfl <;> decide
+  dateLen := by decide
+  timeLen := by intro n h; unfold Gen.Iso.dateLenTest Gen.Iso.timeLenTest; omega
+  minLen := by decide
+  secLen := by intro n h; unfold Gen.Iso.secLenTest; omega
+  secChar := by decide
+
+/-- **The generated guards cover every subscript, and the `except` tuple every exception.**  The
+four classes the primitives raise (`ValueError`, `UnicodeDecodeError`, `OverflowError`, `OSError`)
+are caught by the extracted tuple; the length window guarantees the 9 characters the dash test
+reads (also after the `+` split); `value[10]`/`value[13]` are read only under a `val_len` test that
+covers them, `value[16]` only under one that covers it; `datetime(...)` gets 3, 5 or 6 arguments. -/
+theorem guards_cover_subscripts_and_exceptions : Iso.Covers where
+  catches := by decide
+  window := by intro n h; unfold Gen.Iso.lenWindow at h; omega
+  plus := by intro n h; unfold Gen.Iso.plusReject at h; omega
+  dashIdx := by decide
+  time := by intro n h; unfold Gen.Iso.timeLenTest at h; simp only [Gen.Iso.sepIdx, Gen.Iso.colonA]; omega
+  sec := by intro n h; unfold Gen.Iso.secLenTest at h; simp only [Gen.Iso.colonB]; omega
+  arity := by decide
+
 /-- **ISO round trip, seconds form.**  For every valid date-time of years 1..9999, separator `T`
 or space, any number `k` of fraction digits (the first `k` of the six microsecond digits; `k = 0`
 means no fraction), and suffix none / `Z` / `+HH:MM` / `-HH:MM`, parsing the rendering returns the
@@ -31,25 +65,25 @@ theorem iso_roundtrip (dt : DateTime) (h : validDateTime dt = true) (sep : Char)
   cases suf with
   | none =>
     simp only [Suffix.text, List.append_nil]
-    rw [textPath_plain _ p12 (by simp; omega) (by simp; omega)]
-    exact shaped_second dt h sep hsep _
+    rw [textPath_plain guards_accept_canonical_renderings _ p12 (by simp; omega) (by simp; omega)]
+    exact shaped_second guards_accept_canonical_renderings dt h sep hsep _
   | z =>
     simp only [Suffix.text]
-    rw [textPath_z _ p12 (by simp; omega) (by simp; omega)]
-    exact shaped_second dt h sep hsep _
+    rw [textPath_z guards_accept_canonical_renderings _ p12 (by simp; omega) (by simp; omega)]
+    exact shaped_second guards_accept_canonical_renderings dt h sep hsep _
   | plus hh mm =>
     obtain ⟨p3, l3⟩ := plain_offset hh mm
     have e : Suffix.text (.plus hh mm) = '+' :: (pad2 hh ++ ':' :: pad2 mm) := rfl
-    rw [e, textPath_plus _ _ p12 (plain_split p3).1 (by simp; omega) (by simp; omega) (by simp [pad2]; omega)]
-    exact shaped_second dt h sep hsep _
+    rw [e, textPath_plus guards_accept_canonical_renderings _ _ p12 (plain_split p3).1 (by simp; omega) (by simp; omega) (by simp [pad2]; omega)]
+    exact shaped_second guards_accept_canonical_renderings dt h sep hsep _
   | minus hh mm =>
     obtain ⟨p3, l3⟩ := plain_offset hh mm
     have hm : plainC '-' = true := by decide
     have e : Suffix.text (.minus hh mm) = '-' :: (pad2 hh ++ ':' :: pad2 mm) := rfl
-    rw [e, textPath_plain _ (by rw [List.all_append, p12, List.all_cons, hm, p3]; rfl) (by simp; omega)
+    rw [e, textPath_plain guards_accept_canonical_renderings _ (by rw [List.all_append, p12, List.all_cons, hm, p3]; rfl) (by simp; omega)
       (by simp [pad2]; omega)]
     rw [List.append_assoc]
-    exact shaped_second dt h sep hsep _
+    exact shaped_second guards_accept_canonical_renderings dt h sep hsep _
 
 /-- **Minute-precision form** `YYYY-MM-DD<sep>HH:MM` (optionally followed by `Z` or `+HH:MM`)
 returns the corresponding minute. -/
@@ -64,8 +98,8 @@ theorem minute_form (dt : DateTime) (h : validDateTime dt = true) (sep : Char)
     simp only [renderMinute, List.append_assoc]
     exact notDigit_renderDate _ _ _ _
   apply parseIso_text _ hnd
-  rw [textPath_dropped _ p1 (by omega) (by omega) suf hs]
-  exact shaped_minute { dt with second := 0 } hv rfl sep hsep
+  rw [textPath_dropped guards_accept_canonical_renderings _ p1 (by omega) (by omega) suf hs]
+  exact shaped_minute guards_accept_canonical_renderings { dt with second := 0 } hv rfl sep hsep
 
 /-- **Date-only form** `YYYY-MM-DD` (optionally followed by `Z` or `+HH:MM`) returns midnight. -/
 theorem date_form (y m d : Nat) (h : validDate y m d = true) (suf : Suffix)
@@ -73,8 +107,8 @@ theorem date_form (y m d : Nat) (h : validDate y m d = true) (suf : Suffix)
     parseIso (.str (renderDate y m d ++ suf.text)) = .value ⟨y, m, d, 0, 0, 0, 0⟩ := by
   obtain ⟨p1, l1⟩ := plain_renderDate y m d
   apply parseIso_text _ (notDigit_renderDate y m d _)
-  rw [textPath_dropped _ p1 (by omega) (by omega) suf hs]
-  exact shaped_date y m d h
+  rw [textPath_dropped guards_accept_canonical_renderings _ p1 (by omega) (by omega) suf hs]
+  exact shaped_date guards_accept_canonical_renderings y m d h
 
 /-- **UTF-8 bytes are read as the text they encode** (every `String`, hence every rendering). -/
 theorem utf8_bytes_as_text (s : String) :
@@ -83,8 +117,7 @@ theorem utf8_bytes_as_text (s : String) :
 
 /-- Bytes that are not valid UTF-8 give `None` (`UnicodeDecodeError` is a `ValueError`). -/
 theorem invalid_utf8_none (b : List UInt8) (h : decodeUtf8 b = none) : parseIso (.bytes b) = .none := by
-  simp only [parseIso, parseIsoWith, body, h]
-  decide
+  simp only [parseIso, parseIsoWith, body, h, guards_cover_subscripts_and_exceptions.catches.2.1, if_true]
 
 /-- **Native inputs**: a `date` maps to its midnight, a `datetime` to itself truncated to seconds. -/
 theorem native_inputs (y m d : Nat) (dt : DateTime) :
@@ -146,7 +179,7 @@ theorem epoch_total (n : Int) :
       · simp only [parseIso, parseIsoWith, body, epoch, c4, if_true, intOfFloat, hb, bind_ok, hf]
   · intro hr
     obtain ⟨e, hf⟩ := hout hr
-    have hc : caughtBy Gen.Iso.caught e = true := fromTimestamp_safe n e hf
+    have hc : caughtBy Gen.Iso.caught e = true := fromTimestamp_safe guards_cover_subscripts_and_exceptions n e hf
     refine ⟨?_, ?_, ?_⟩
     · simp only [parseIso, parseIsoWith, body, epoch, c1, if_true, bind_ok, hf, bind_error, hc]
     · simp only [parseIso, parseIsoWith, body, epoch, c2, if_true, bind_ok, hf, bind_error, hc]
@@ -173,7 +206,7 @@ shows that every exception class a primitive can raise is named (by itself or a 
 the `except` tuple extracted from the source, and that `IndexError` is unreachable. -/
 theorem never_raises (i : Input) (e : Exc) : parseIso i ≠ .raises e := by
   unfold parseIso parseIsoWith
-  have hs := body_safe i
+  have hs := body_safe guards_cover_subscripts_and_exceptions i
   cases hb : body i with
   | ok o => cases o <;> simp
   | error e' =>
@@ -191,11 +224,15 @@ theorem other_inputs_none :
     unfold Gen.Iso.lenWindow; omega
   simp only [parseIso, parseIsoWith, body, strBody, hd, textPath, this, if_false, Bool.false_eq_true]
 
-/-- **The DATE and TIMESTAMP casts agree with the parser** for every input: they return the
+/-- **The DATE and TIMESTAMP casts agree with the parser** (`Iso.cast` is written from the three
+function bodies of `orso/types.py`, extracted with string constants blanked and pinned here) for every input: they return the
 parser's value (its date / itself) and raise `ValueError` exactly when the parser yields `None`.
 The TIME cast does the same (the value's time of day) for every input that is not already a
 `datetime.time`; a native `time` value is returned unchanged (`parse_time`'s identity branch). -/
 theorem casts_agree (i : Input) :
+    (Gen.Iso.parseDateBody = "result = parse_iso(x); if result is None: raise ValueError(''); return result.date()" ∧
+     Gen.Iso.parseTimestampBody = "result = parse_iso(x); if result is None: raise ValueError(''); return result" ∧
+     Gen.Iso.parseTimeBody = "if isinstance(x, datetime.time): return x; result = parse_iso(x); if result is None: raise ValueError(''); return result.time()") ∧
     (∀ dt, parseIso i = .value dt →
       Iso.cast .timestamp i = .timestamp dt ∧ Iso.cast .date i = .date dt.year dt.month dt.day ∧
       ((∀ H M S us, i ≠ .time H M S us) → Iso.cast .time i = .time dt.hour dt.minute dt.second dt.micro)) ∧
@@ -203,7 +240,7 @@ theorem casts_agree (i : Input) :
       Iso.cast .timestamp i = .raises .valueError ∧ Iso.cast .date i = .raises .valueError ∧
       ((∀ H M S us, i ≠ .time H M S us) → Iso.cast .time i = .raises .valueError)) ∧
     (∀ H M S us, Iso.cast .time (.time H M S us) = .time H M S us ∧ parseIso (.time H M S us) = .none) := by
-  refine ⟨?_, ?_, fun _ _ _ _ => ⟨rfl, rfl⟩⟩
+  refine ⟨⟨rfl, rfl, rfl⟩, ?_, ?_, fun _ _ _ _ => ⟨rfl, rfl⟩⟩
   · intro dt h
     refine ⟨by simp [Iso.cast, h], by simp [Iso.cast, h], ?_⟩
     intro hne
